@@ -17,7 +17,7 @@ UNIT_PROPS = {
     "cob_op": ["C06", "C04"],
     "cob_auth": ["C07"],
     "cob_auth_patch": ["C07"],
-    "cob_identity": ["C04"],
+    "cob_identity": ["C04", "C19"],
     "sync": ["C25"],
     "term": ["C26"],
     "refs_verify": ["C20", "C01"],
@@ -87,11 +87,11 @@ PROPS = {
         "not_decided": "First sentence of C20 (canonical text parses back to the same set) is string/iterator code outside Verus: not decided. 'Changing any ref makes verification fail' reduces to ed25519 unforgeability and injectivity of canonical(): assumed, not proved.",
     },
     "C19": {
-        "vx": ["identity"],
+        "vx": ["identity", "cob_identity"],
         "kx": [],
         "technique": "Verus contracts on the extracted Delegates::new (its try_fold closure lifted verbatim to a named fn with a contract; std's try_fold default body transcribed and verified with a loop invariant), Threshold::new, RawDoc::verified, Delegates/Doc accessors: every Doc constructed satisfies valid() (1..=255 distinct delegates, 1 <= threshold <= #delegates)",
-        "explanation": "Delegates::new is proved to return Ok only with a duplicate-free list of 1..=255 delegates containing exactly the delegates given; Threshold::new is Ok exactly for 1 <= t <= min(255, #delegates); RawDoc::verified returns Ok only with a Doc satisfying valid() whose delegates/threshold/visibility are those of the raw document. Every constructor of Doc in doc.rs goes through these.",
-        "not_decided": "Version check, serde/JSON decoding (that Deserialize goes through RawDoc::verified is by inspection of the serde attribute), encode/decode round-trip and RepoId == git blob hash of the canonical encoding are outside Verus (serde_json, git2): not decided. slice::contains, NonEmpty::from_vec assumed by contract; Iterator::try_fold is represented by a transcription of its default body.",
+        "explanation": "Delegates::new is proved to return Ok only with a duplicate-free list of 1..=255 delegates containing exactly the delegates given; Threshold::new is Ok exactly for 1 <= t <= min(255, #delegates); RawDoc::verified returns Ok only with a Doc satisfying valid() whose delegates/threshold/visibility are those of the raw document. Every constructor of Doc in doc.rs goes through these. From git: <Identity as store::Cob>::from_root (unit cob_identity) returns an identity only when the blob id of the root document it loaded equals the id of the repository it was read in (and the identity's id is that blob id).",
+        "not_decided": "Version check, serde/JSON decoding (that Deserialize goes through RawDoc::verified is by inspection of the serde attribute), encode/decode round-trip and that Repository::init derives the RepoId as the git blob hash of the canonical encoding are outside Verus (serde_json, git2): not decided (only the check on the reading side, from_root, is). Doc::load_at and Identity::new are assumed by contract. slice::contains, NonEmpty::from_vec assumed by contract; Iterator::try_fold is represented by a transcription of its default body.",
     },
     "C22": {
         "vx": ["crdt"],
